@@ -8,7 +8,7 @@ checks, engines, na = [], {}, []
 allp = json.loads(subprocess.run([os.path.join(ROOT, "check"), "--dump-all"], capture_output=True, text=True).stdout)
 for pid in ids:
     p = allp.get(pid)
-    if not p or not p.get("manifest") or p.get("manifest", {}).get("not_applicable"):
+    if not p or not p.get("manifest") or not p.get("claimed") or p.get("manifest", {}).get("not_applicable"):
         na.append({"property_id": pid, "reason": (p or {}).get("manifest", {}).get("not_applicable", "check not built yet in this framework (planned: DESIGN.md §5 %s)" % pid)})
         continue
     m = p["manifest"]
